@@ -1,6 +1,6 @@
 SPECIFICATION Spec
 CONSTANTS
-  Chains <- RewindChains
+  Chains <- RewindAndFracChains
   RowVals <- RowsABC
   MaxRows = 3
   MaxEmpty = 0
